@@ -34,6 +34,8 @@ somePar   0   1.5   0.1
     "fD": """EventType D0 K- pi+ pi+ pi-
 D0{K*(892)bar0{K-,pi+},rho(1450)0{pi+,pi-}}   0 0.642781 0.00570074   0 1.69828 0.00900026
 D0{a(1)(1260)+{omega(782)0{pi+,pi-},pi+},K-}   0 0.3 0.01   0 0.2 0.01
+a(1)(1260)+_mass   0 1195.05 1.05
+a(1)(1260)+_width   0 422.013 2.1
 """,
     # rejected: the option is applied, then a resonance name unknown to the particle table is met
     "fE": """EventType D0 K- pi+ pi+ pi-
@@ -61,14 +63,26 @@ def prog_names():
     import decaylanguage.data as data
     if 998100 not in Particle.all() and 998101 not in {int(p.pdgid) for p in Particle.all()}:
         Particle.load_table(str(data.basepath / "MintDalitzSpecialParticles.csv"), append=True)
+    global MASSES
+    MASSES = {r: Particle.from_pdgid(i).mass for r, (_, i) in RES.items()}
     return {Particle.from_pdgid(i).programmatic_name: r for r, (_, i) in RES.items()}
+
+
+MASSES = {}
 
 
 def project(cls, f, res, pn):
     """-> event of AmpSession trace mode"""
     import cmath
     import re
-    ev = {"cls": cls, "f": f, "declared": ["n/a"], "coupling": "n/a", "rejected": res["kind"] == "error", "table": "n/a"}
+    ev = {"cls": cls, "f": f, "declared": ["n/a"], "coupling": "n/a", "rejected": res["kind"] == "error", "table": "n/a",
+          "masses": []}
+    if res["kind"] == "text":
+        # where the mass of each resonance variable comes from: the particle table, or somewhere else
+        for name, val in re.findall(r'"(\w+)_M"\s*,\s*([-+0-9.eE]+)', res["text"]):
+            r = pn.get(name)
+            if r and MASSES.get(r):
+                ev["masses"].append([r, "table" if abs(float(val) - MASSES[r]) <= 1e-6 * MASSES[r] else "earlier-file"])
     if f == "fF" and res["kind"] == "text":
         # the mass the output gives K(1460): 1482.4 is the special table's value (the plain table has none)
         import re as _re
@@ -126,7 +140,7 @@ def run(tier, seed, replay_path=None):
     wd = tlc.new_workdir("c20")
     tmp = Path(tempfile.mkdtemp(prefix="c20-", dir=wd))
     try:
-        for v, expect in (("per_read", False), ("accumulating", True), ("no_restore_when_rejected", True), ("table_on_demand", True)):
+        for v, expect in (("per_read", False), ("accumulating", True), ("no_restore_when_rejected", True), ("table_on_demand", True), ("params_into_particles", True)):
             r = tlc.run("AmpSession", tlc.cfg_text(constants=dict(Variant=v, MaxLen=4, EmitMode="none"),
                                                    invariants=["HistoryIndependent"], view="AbsView"), workdir=wd, keep_records=False)
             o.add_tlc(r, f"AmpSession variant {v}: HistoryIndependent over all histories of <= 4 calls (3 classes x 6 files)",
@@ -161,6 +175,8 @@ def run(tier, seed, replay_path=None):
         chosen += [[("base", "fE"), (c1, "fA")], [(c2, "fE"), (c2, "fD")], [(c3, "fB"), (c3, "fA")], [(c2, "fE"), (c2, "fB"), (c2, "fA")]]
         # ... and a file that needs the special particle table before one whose particle parameters that table overrides
         chosen += [[(c3, "fC"), (c2, "fF")], [(c1, "fA"), (c2, "fF")]]
+        # ... and a file carrying <name>_mass / _width parameters before another file with the same resonance
+        chosen += [[(c1, "fD"), (c2, "fB")]]
         if replay_path:
             chosen = [[tuple(x) for x in json.load(open(replay_path))["case"]["history"]]]
         seeds = list(range(8 if deep else 3))
